@@ -1,11 +1,13 @@
 package checks
 
 import (
+	"encoding/json"
 	"fmt"
 	"math"
 	"reflect"
 	"strings"
 	"testing"
+	"time"
 
 	"pgregory.net/rapid"
 
@@ -47,6 +49,7 @@ var zooTypes = []reflect.Type{
 	reflect.TypeOf(za.Extra{}), reflect.TypeOf(zb.Extra{}), reflect.TypeOf(za.Node{}), reflect.TypeOf(zb.Node{}),
 	reflect.TypeOf(za.Pair{}), reflect.TypeOf(zb.Pair{}), reflect.TypeOf(za.Embeds{}), reflect.TypeOf(za.Uniq{}),
 	reflect.TypeOf(anon1{}), reflect.TypeOf(anon2{}), reflect.TypeOf(anon3{}), reflect.TypeOf(za.Deep{}), reflect.TypeOf(za.EmbedsDeep{}),
+	reflect.TypeOf(za.Overlap{}), reflect.TypeOf(za.OverlapEmb{}), reflect.TypeOf(za.Times{}),
 }
 
 var structOfFieldTypes = []reflect.Type{
@@ -120,6 +123,32 @@ func usesInterface(rt reflect.Type, depth int) bool {
 // range that oj.Unmarshal is known to lose (it parses with ForceFloat), 2 the values at the very ends of
 // the int64 range, which take the parser's big-number path and do survive.
 var bigIntMode int
+
+var timeType = reflect.TypeOf(time.Time{})
+
+// composeTime is the any-composer a user registers for time.Time (the documented way to get times back): it
+// takes what the encoders write under the options used here - nanoseconds since the epoch or an RFC 3339 text.
+func composeTime(v any) (any, error) {
+	switch tv := v.(type) {
+	case int64:
+		return time.Unix(0, tv).UTC(), nil
+	case float64:
+		return time.Unix(0, int64(tv)).UTC(), nil
+	case json.Number:
+		n, err := tv.Int64()
+		return time.Unix(0, n).UTC(), err
+	case string:
+		return time.Parse(time.RFC3339Nano, tv)
+	case time.Time:
+		return tv, nil
+	}
+	return nil, fmt.Errorf("verif: cannot compose a time from a %T", v)
+}
+
+var c16Times = []time.Time{
+	time.Unix(0, 0).UTC(), time.Date(2021, 2, 3, 4, 5, 6, 123456789, time.UTC), time.Date(1999, 12, 31, 23, 59, 59, 0, time.UTC),
+	time.Date(2038, 1, 19, 3, 14, 8, 1, time.UTC), time.Date(1970, 1, 1, 0, 0, 1, 500000000, time.UTC),
+}
 
 var lossyInts = []int64{1<<53 + 1, -(1<<53 + 1), 1<<60 + 7, 9223372036854775799, -9223372036854775807}
 var edgeInts = []int64{9223372036854775807, 9223372036854775800, 9223372036854775806, -9223372036854775808}
@@ -214,6 +243,11 @@ func fill(t *rapid.T, rv reflect.Value, depth int) {
 		fill(t, p.Elem(), depth-1)
 		rv.Set(p)
 	case reflect.Struct:
+		if rv.Type() == timeType {
+			// UTC instants with nanoseconds (the default time encoding is nanoseconds since the epoch)
+			rv.Set(reflect.ValueOf(c16Times[sim.Intn(t, len(c16Times), "time")]))
+			return
+		}
 		for i := 0; i < rv.NumField(); i++ {
 			sf := rv.Type().Field(i)
 			if sf.PkgPath == "" && sf.Tag.Get("json") != "-" { // a field tagged "-" is not written: it stays zero
@@ -281,6 +315,12 @@ func same(a, b reflect.Value, path string) (bool, string) {
 			return same(a.Elem(), b.Elem(), path+".*")
 		}
 	case reflect.Struct:
+		if a.Type() == timeType {
+			if !a.Interface().(time.Time).Equal(b.Interface().(time.Time)) {
+				return false, fmt.Sprintf("%s: %v vs %v", path, a.Interface(), b.Interface())
+			}
+			return true, ""
+		}
 		for i := 0; i < a.NumField(); i++ {
 			if a.Type().Field(i).PkgPath != "" {
 				continue
@@ -314,6 +354,7 @@ type op16 struct {
 	Route    int
 	StructOf bool
 	BigInts  int
+	Tags     bool // UseTags on the alt and sen routes (the oj route always writes with GoOptions)
 }
 
 func typeLabel(rt reflect.Type) string {
@@ -332,7 +373,7 @@ func (o *op16) String() string {
 	case "wrong-shape":
 		return "Recompose(wrong shape) into " + typeLabel(o.Type)
 	}
-	return fmt.Sprintf("%s %s value=%s", []string{"alt.Recompose(alt.Decompose(v))", "oj.Unmarshal(oj.Marshal(v))", "sen.Unmarshal(sen.Bytes(v))"}[o.Route], typeLabel(o.Type), derefAll(o.Value))
+	return fmt.Sprintf("%s %s value=%s tags=%v", []string{"alt.Recompose(alt.Decompose(v))", "oj.Unmarshal(oj.Marshal(v))", "sen.Unmarshal(sen.Bytes(v))"}[o.Route], typeLabel(o.Type), derefAll(o.Value), o.Tags)
 }
 
 func drawOp16(t *rapid.T) *op16 {
@@ -358,6 +399,8 @@ func drawOp16(t *rapid.T) *op16 {
 		fill(t, o.Value, 3)
 		bigIntMode = 0
 		o.Route = sim.Intn(t, 3, "route")
+		// a type whose json tags overlap other fields' names is only unambiguous when the tags are used throughout
+		o.Tags = sim.Bool(t, "usetags") || o.Type == reflect.TypeOf(za.Overlap{}) || o.Type == reflect.TypeOf(za.OverlapEmb{})
 	}
 	return o
 }
@@ -372,7 +415,7 @@ type res16 struct {
 // public API only (what oj's init does).
 func resetDefaultRecomposer(createKey string) {
 	alt.DefaultRecomposer = *alt.MustNewRecomposer(createKey, nil)
-	alt.DefaultRecomposer.RegisterUnmarshalerComposer(func(v any) (any, error) { return []byte(oj.JSON(v)), nil })
+	_ = alt.DefaultRecomposer.RegisterAnyComposer(time.Time{}, composeTime)
 	// the type named by create keys in interface-typed fields must be registered beforehand (documented
 	// precondition of create keys: the registry is what maps the name back to a type)
 	_ = alt.DefaultRecomposer.RegisterComposer(&za.Uniq{}, nil)
@@ -416,7 +459,7 @@ func (o *op16) run(r *alt.Recomposer) (res res16) {
 	v := o.Value.Interface()
 	target := reflect.New(o.Type)
 	var err error
-	opt := ojg.Options{CreateKey: "type"}
+	opt := ojg.Options{CreateKey: "type", UseTags: o.Tags}
 	switch o.Route {
 	case routeAlt:
 		d := alt.Decompose(v, &opt)
@@ -440,6 +483,7 @@ func (o *op16) run(r *alt.Recomposer) (res res16) {
 	default:
 		sopt := ojg.DefaultOptions
 		sopt.CreateKey = "type"
+		sopt.UseTags = o.Tags
 		b := sen.Bytes(v, &sopt)
 		b = append([]byte(nil), b...)
 		if r == nil {
@@ -476,6 +520,9 @@ func derefAll(v reflect.Value) string {
 		}
 		return "&" + derefAll(v.Elem())
 	case reflect.Struct:
+		if v.Type() == timeType {
+			return v.Interface().(time.Time).UTC().Format(time.RFC3339Nano)
+		}
 		var b strings.Builder
 		b.WriteString("{")
 		for i := 0; i < v.NumField(); i++ {
@@ -547,7 +594,7 @@ func propC16(cx *sim.Ctx) {
 		}
 		// reference: the same op on a fresh recomposer
 		fresh := alt.MustNewRecomposer("type", nil)
-		fresh.RegisterUnmarshalerComposer(func(v any) (any, error) { return []byte(oj.JSON(v)), nil })
+		_ = fresh.RegisterAnyComposer(time.Time{}, composeTime)
 		_ = fresh.RegisterComposer(&za.Uniq{}, nil)
 		want := o.run(fresh)
 		cx.Exec()
@@ -557,7 +604,7 @@ func propC16(cx *sim.Ctx) {
 		got := o.run(nil)
 		cx.Exec()
 		cx.Steps(1)
-		attrs := map[string]any{"kind": o.Kind, "route": o.Route, "structof": o.StructOf, "ints_in_range_lost_by_forcefloat": o.BigInts == 1, "anonymous": o.Type.Name() == "", "embedded": o.Type == reflect.TypeOf(za.Embeds{})}
+		attrs := map[string]any{"kind": o.Kind, "route": o.Route, "structof": o.StructOf, "ints_in_range_lost_by_forcefloat": o.BigInts == 1 || o.Type == reflect.TypeOf(za.Times{}), "anonymous": o.Type.Name() == "", "embedded": o.Type == reflect.TypeOf(za.Embeds{})}
 		collides := !sawType[o.Type] && sawName[o.Type.Name()] > 0
 		attrs["name_seen_before_for_other_type"] = collides
 		if collides {
